@@ -189,3 +189,28 @@ func init() {
 }
 
 func maxDepthOf(d []byte) int { return maxDepth(d) }
+
+func init() {
+	// C20 tie: the reader's remembered size hints follow the model Cost.remembered_prev
+	suites["c20hints"] = func(e *emitter, r *rng, thorough bool) {
+		n := 300
+		if thorough {
+			n = 5000
+		}
+		for i := 0; i < n; i++ {
+			var calls []string
+			for j := 0; j < 1+r.intn(5); j++ {
+				var sz []string
+				for k := 0; k < 1+r.intn(6); k++ {
+					s := r.intn(4)
+					if r.chance(1, 5) {
+						s = 20 + r.intn(200)
+					}
+					sz = append(sz, fmt.Sprint(s))
+				}
+				calls = append(calls, strings.Join(sz, ","))
+			}
+			e.emit("hint %s", strings.Join(calls, " "))
+		}
+	}
+}
